@@ -135,7 +135,7 @@ PROPS = {
                    "and synthetic 1-4 socket topologies, with spurious condvar wake-ups, multi-wake signals, spurious weak-CAS failures, late thread starts and stalls. "
                    "Oracles: phase separation by arrival stamps, arrival->departure happens-before on plain stamps, completion (deadlock / no-progress detection).",
         level_note="Sampling over seeds, not enumeration. The pthread variant runs Galois's wrapper over the engine's pthread_barrier stub.",
-        **tiers(3000, 100, 60000, 1200)),
+        **tiers(12000, 120, 300000, 1200)),
     "C06": dict(
         jobs=[dict(harness="c06_locks", variant="a", weight=3), dict(harness="c06_locks", variant="n", weight=2),
               dict(harness="c05_barrier", variant="n", weight=1)] + loop_jobs([1, 2], variants=("n",)),
@@ -255,7 +255,7 @@ PROPS = {
                    "each input edge exactly once in the union, exactly one master per node and agreement of getHostID, L2G/G2L inverse, masters before mirrors, a proxy for every endpoint of a local edge, mirror lists equal to the "
                    "non-owned proxies grouped by owner, OEC/IEC promises. The simulator varies the arrival order of edge/metadata messages, host and communication-thread stalls, threads per host.",
         level_note="Sampling over seeds; MPI is a stub that keeps the standard's guarantees. Master/mirror list agreement between peers is exercised through the Gluon exchange in the C18 check.",
-        **tiers(400, 170, 20000, 2400, run_timeout_s=300)),
+        **tiers(800, 170, 20000, 2400, run_timeout_s=300)),
     "C18": dict(
         jobs=[dict(harness="c18_gluon", variant="a", weight=2, build=dist_build(libs=("libgalois", "libdist", "libgluon", "simmpi")), params={"mode": 1}),
               dict(harness="c18_gluon", variant="n", weight=1, build=dist_build(libs=("libgalois", "libdist", "libgluon", "simmpi")), params={"mode": 1})],
